@@ -1344,7 +1344,10 @@ impl Exec {
                     let free = (1..st.capacity()).filter(|&i| !st.cell_flags(i).0).count();
                     drop(st);
                     if free > 0 {
-                        self.fail(&["C06"], format!("'Storage is full' with {} free cells", free));
+                        // a spurious failure of this operation as well as of the allocator
+                        let mut ps = vec!["C06"];
+                        ps.extend(props.iter().copied().filter(|p| *p != "C06"));
+                        self.fail(&ps, format!("'Storage is full' with {} free cells", free));
                     }
                 } else {
                     // no other panic is expected on live arguments (C02, C12, …); with a query iterator
@@ -1634,6 +1637,52 @@ impl Exec {
                         })
                     }
                     None => "bad-op".into(),
+                }
+            }
+            "exprtree" => {
+                // an expression built constructor by constructor (prefix notation): `T h` = Expr::term,
+                // `N e` = the raw variant Expr::Not(Box::new(e)), `n e` = Expr::not(e) (what unary minus
+                // calls), `A/O/X e e` = the raw variants, `a/o/x e e` = Expr::and / or / xor
+                fn build(toks: &[&str], pos: &mut usize, env: &[Ref]) -> Option<(Expr, EFn)> {
+                    let t = *toks.get(*pos)?;
+                    *pos += 1;
+                    Some(match t {
+                        "T" => {
+                            let i: usize = toks.get(*pos)?.parse().ok()?;
+                            *pos += 1;
+                            (Expr::term(*env.get(i)?), EFn::H(i))
+                        }
+                        "N" | "n" => {
+                            let (e, f) = build(toks, pos, env)?;
+                            (if t == "N" { Expr::Not(Box::new(e)) } else { Expr::not(e) }, EFn::Not(Box::new(f)))
+                        }
+                        "A" | "a" | "O" | "o" | "X" | "x" => {
+                            let (e1, f1) = build(toks, pos, env)?;
+                            let (e2, f2) = build(toks, pos, env)?;
+                            match t {
+                                "A" => (Expr::And(Box::new(e1), Box::new(e2)), EFn::And(Box::new(f1), Box::new(f2))),
+                                "a" => (Expr::and(e1, e2), EFn::And(Box::new(f1), Box::new(f2))),
+                                "O" => (Expr::Or(Box::new(e1), Box::new(e2)), EFn::Or(Box::new(f1), Box::new(f2))),
+                                "o" => (Expr::or(e1, e2), EFn::Or(Box::new(f1), Box::new(f2))),
+                                "X" => (Expr::Xor(Box::new(e1), Box::new(e2)), EFn::Xor(Box::new(f1), Box::new(f2))),
+                                _ => (Expr::xor(e1, e2), EFn::Xor(Box::new(f1), Box::new(f2))),
+                            }
+                        }
+                        _ => return None,
+                    })
+                }
+                let mut pos = 1;
+                let built = build(toks, &mut pos, &self.env);
+                match built {
+                    Some((ex, e_fn)) if pos == toks.len() => {
+                        // every named handle must be live
+                        let e = tt.and_then(|t| e_fn.eval(&t, &self.exp));
+                        if tt.is_none() {
+                            self.pending_spec = Some(Spec::Expr(e_fn));
+                        }
+                        self.produce(&["C03"], e, |m| m.eval(ex))
+                    }
+                    _ => "bad-op".into(),
                 }
             }
             "low" | "high" => {
